@@ -276,6 +276,20 @@ func samplers() []samplerDef {
 			{Name: "fallthrough", Drop: true},
 		}}}
 	})
+	// conditions on a configured ID field (the documented "is this a child span" rule): the field is consumed by the
+	// identity extraction on the wire-bytes paths, the rule must still see it
+	add("rules-parent-id-exists", "rules/id-field", func() *config.V2SamplerChoice {
+		return &config.V2SamplerChoice{RulesBasedSampler: &config.RulesBasedSamplerConfig{Rules: []*config.RulesBasedSamplerRule{
+			{Name: "has-child", SampleRate: 1, Conditions: []*config.RulesBasedSamplerCondition{cond("trace.parent_id", "exists", nil, "")}},
+			{Name: "fallthrough", Drop: true},
+		}}}
+	})
+	add("rules-trace-id-field-not-exists", "rules/id-field", func() *config.V2SamplerChoice {
+		return &config.V2SamplerChoice{RulesBasedSampler: &config.RulesBasedSamplerConfig{Rules: []*config.RulesBasedSamplerRule{
+			{Name: "no-trace-id", Drop: true, Conditions: []*config.RulesBasedSamplerCondition{cond("trace.trace_id", "not-exists", nil, "")}},
+			{Name: "rest", SampleRate: 1},
+		}}}
+	})
 	add("dynamic-n", "dynamic", func() *config.V2SamplerChoice { return &config.V2SamplerChoice{DynamicSampler: dyn(false, "n")} })
 	add("dynamic-root.n-tracelength", "dynamic", func() *config.V2SamplerChoice { return &config.V2SamplerChoice{DynamicSampler: dyn(true, "root.n")} })
 	add("deterministic-2", "deterministic", func() *config.V2SamplerChoice {
